@@ -52,8 +52,13 @@ def run_cases(cases, res, stratum):
                 for pre in (['Q', 'q', 'S', 's'] if s else ['UQ', 'uq', 'Uq', 'U', 'u', 'QU', 'qu']):
                     spell.append('%s%d.%d' % (pre, m, nf))
                 if nf == 0: spell.append('%s%d' % ('S' if s else 'U', m))
+            obs['sum_parse'] = {}
             for sp in spell:
                 w = fx.Fxp(None, dtype=sp); obs['parse'][sp] = (bool(w.signed), int(w.n_word), int(w.n_frac), 'complex' in w.dtype)
+                try:
+                    sm2 = fx.fxp_sum(fx.Fxp([0, 0], s, n, nf), dtype=sp); obs['sum_parse'][sp] = (bool(sm2.signed), int(sm2.n_word), int(sm2.n_frac))
+                except Exception as e:
+                    obs['sum_parse'][sp] = ('raised ' + lib.exc_name(e), str(e)[:80])
         except Exception as e:
             res.fail(c, 'C12: constructing / rendering / parsing raised %s' % lib.exc_name(e), got=str(e)[:300]); continue
         pend.append((c, obs))
@@ -82,6 +87,9 @@ def run_cases(cases, res, stratum):
             res.fail(c, 'C12: constructing / resizing with dtype=x.dtype does not reproduce the format', expected=(s, n, nf, cx), got=(obs['ctor'], obs['resize'])); k += len(obs['parse']); continue
         if obs['resize_int'] != (s, n, nf, fxp_str(s, n, nf, False)):
             res.fail(c, 'C12: resizing an integer-valued object with dtype= does not give the format / dtype string', expected=(s, n, nf, fxp_str(s, n, nf, False)), got=obs['resize_int']); k += len(obs['parse']); continue
+        bads = [(sp, g) for sp, g in obs.get('sum_parse', {}).items() if g != (s, n, nf)]
+        if bads:
+            res.fail(dict(c, spelling=bads[0][0]), 'C12: fxp_sum(dtype=<spelling>) (the second dtype parser) does not give the format the spelling denotes', expected=(s, n, nf), got=bads[0][1]); k += len(obs['parse']); continue
         if obs['sum_dtype'] != (s, n, nf):
             res.fail(c, 'C12: fxp_sum(dtype=x.dtype) (utils.get_sizes_from_dtype) does not reproduce the format', expected=(s, n, nf), got=obs['sum_dtype']); k += len(obs['parse']); continue
         for key in ('ctor_real', 'complex_then_real'):
